@@ -204,7 +204,28 @@ func (c *Ctx) variantCond(f *FA, x *bvCtx, b *ssa.BasicBlock) string {
 			parts = append(parts, tok)
 			continue
 		}
-		parts = append(parts, c.condText(f, x, iff.Cond, taken))
+		txt := c.condText(f, x, iff.Cond, taken)
+		// "x != k" behind a guard that already established x >= k is "x > k" (and likewise "<"): the same
+		// variant written with an early return instead of a nested if
+		if bo, ok := iff.Cond.(*ssa.BinOp); ok && strings.Contains(txt, " != ") {
+			if k, isK := bo.Y.(*ssa.Const); isK && k.Value != nil {
+				if kv, okK := constInt64(k.Value); okK {
+					facts := f.FactsAt(p)
+					l := f.LFOf(bo.X)
+					// only when a guard establishes the bound (not the value's type alone)
+					ge, _ := f.Prove(l.add(konst(kv), -1), facts)
+					ge0, _ := f.Prove(l.add(konst(kv), -1), nil)
+					le, _ := f.Prove(konst(kv).add(l, -1), facts)
+					le0, _ := f.Prove(konst(kv).add(l, -1), nil)
+					if ge && !ge0 {
+						txt = strings.Replace(txt, " != ", " > ", 1)
+					} else if le && !le0 {
+						txt = strings.Replace(txt, " != ", " < ", 1)
+					}
+				}
+			}
+		}
+		parts = append(parts, txt)
 	}
 	return cleanConds(parts)
 }
@@ -438,29 +459,55 @@ func (c *Ctx) decodeTablesOf(fn *ssa.Function, st *slotTables, recName func(rec 
 			if !ok {
 				continue
 			}
-			fa, ok := s.Addr.(*ssa.FieldAddr)
-			if !ok {
-				continue
+			// the target field: a field address, or a pointer chosen among field addresses by an accessor
+			// (`*p.listFor(kind) = append(...)`): one conditional store per alternative
+			type target struct {
+				fa   *ssa.FieldAddr
+				cond string
 			}
-			fk := strings.TrimPrefix(FieldKey(fa.X.Type(), fa.Field), "field:")
-			rec, _ := structOfField(fk)
-			if !isCodecStructKey(rec) {
-				continue
+			var targets []target
+			if fa, ok := s.Addr.(*ssa.FieldAddr); ok {
+				targets = []target{{fa, c.variantCond(f, x, b)}}
+			} else if _, isPhi := s.Addr.(*ssa.Phi); isPhi {
+				base := c.variantCond(f, x, b)
+				for _, a := range phiAlternatives(s.Addr, b, 0) {
+					fa, ok := a.val.(*ssa.FieldAddr)
+					if !ok {
+						continue // nil (no such list) and anything else: nothing is stored into a field
+					}
+					cond := c.altCond(f, x, a)
+					if base != "" && !strings.Contains(cond, base) {
+						if cond == "" {
+							cond = base
+						} else {
+							cond = cleanConds(append(strings.Split(cond, " && "), strings.Split(base, " && ")...))
+						}
+					}
+					targets = append(targets, target{fa, cond})
+				}
 			}
-			if recName != nil {
-				rec = recName(rec)
-			}
-			t := st.table("decode", rec)
-			t.Funcs = appendUniq(t.Funcs, c.FuncName(fn))
-			cond := c.variantCond(f, x, b)
-			pos := c.InstrPos(s)
-			nb, ns := len(t.Bits), len(t.Segs)
-			c.decodeStore(f, x, t, fk, s.Val, cond, pos, fn)
-			for i := nb; i < len(t.Bits); i++ {
-				t.Bits[i].Fn = c.FuncName(fn)
-			}
-			for i := ns; i < len(t.Segs); i++ {
-				t.Segs[i].Fn = c.FuncName(fn)
+			for _, tg := range targets {
+				fa := tg.fa
+				fk := strings.TrimPrefix(FieldKey(fa.X.Type(), fa.Field), "field:")
+				rec, _ := structOfField(fk)
+				if !isCodecStructKey(rec) {
+					continue
+				}
+				if recName != nil {
+					rec = recName(rec)
+				}
+				t := st.table("decode", rec)
+				t.Funcs = appendUniq(t.Funcs, c.FuncName(fn))
+				cond := tg.cond
+				pos := c.InstrPos(s)
+				nb, ns := len(t.Bits), len(t.Segs)
+				c.decodeStore(f, x, t, fk, s.Val, cond, pos, fn)
+				for i := nb; i < len(t.Bits); i++ {
+					t.Bits[i].Fn = c.FuncName(fn)
+				}
+				for i := ns; i < len(t.Segs); i++ {
+					t.Segs[i].Fn = c.FuncName(fn)
+				}
 			}
 		}
 	}
@@ -776,6 +823,8 @@ func (c *Ctx) addDecodeBits(f *FA, x *bvCtx, t *recTable, fk string, bv BV, cond
 func (c *Ctx) addDecodeElem(f *FA, x *bvCtx, t *recTable, fk string, bv BV, cond, pos string) {
 	et := c.curTables.table("decode", t.Record+"[]")
 	et.Funcs = appendUniq(et.Funcs, t.Funcs...)
+	var listStart int64
+	haveListStart := false
 	base := int64(1) << 40
 	for _, b := range bv {
 		if b.K == bRef {
@@ -812,7 +861,31 @@ func (c *Ctx) addDecodeElem(f *FA, x *bvCtx, t *recTable, fk string, bv BV, cond
 					}
 				}
 			}
-			ci := cursorInfo{Root: l.RootKey + "[]", Parent: l.RootKey, InitLo: fmt.Sprint(base), InitHi: "end", Step: stride}
+			initLo := fmt.Sprint(base)
+			parent := l.RootKey
+			// cursor form: the elements are read at the head of a loop-carried slice that is re-sliced by the
+			// stride (`for s := b[4:]; len(s) >= 4; s = s[4:]`): start and stride come from the cursor's edges
+			if ph, ok := l.Root.(*ssa.Phi); ok && isByteSlice(ph.Type()) {
+				for i, e := range ph.Edges {
+					root, lo, _, _ := f.relSpan(e)
+					if root == ssa.Value(ph) {
+						if lo.isConst() {
+							stride = fmt.Sprint(lo.C)
+						}
+						continue
+					}
+					if _, isParam := root.(*ssa.Parameter); isParam {
+						plo := f.pin(lo, f.FactsAt(ph.Block().Preds[i]))
+						if plo.isConst() {
+							initLo = fmt.Sprint(plo.C + base)
+							parent = x.rootKey(root)
+							listStart = plo.C + base
+							haveListStart = true
+						}
+					}
+				}
+			}
+			ci := cursorInfo{Root: l.RootKey + "[]", Parent: parent, InitLo: initLo, InitHi: "end", Step: stride}
 			dup := false
 			for _, o := range et.Cursors {
 				if o == ci {
@@ -823,6 +896,9 @@ func (c *Ctx) addDecodeElem(f *FA, x *bvCtx, t *recTable, fk string, bv BV, cond
 				et.Cursors = append(et.Cursors, ci)
 			}
 		}
+	}
+	if haveListStart {
+		base = listStart
 	}
 	t.Segs = append(t.Segs, segRow{Field: "", Nested: "list<" + t.Record + "[]>", Lo: fmt.Sprint(base), Hi: "end", Open: true, Cond: cond, Pos: pos})
 }
